@@ -8,6 +8,7 @@ import (
 	"io"
 	"sort"
 	"strings"
+	"sync"
 	"time"
 
 	"github.com/gorilla/websocket"
@@ -83,8 +84,10 @@ type LogPool struct {
 	Out    map[int]string
 	Hook   func(op string)
 	Stamp  func() (call, op int)
+	hand   sync.Mutex // real Put->Get edge, as sync.Pool gives
 }
 
+//go:norace
 func (p *LogPool) ev(op string, id int) {
 	e := PoolEvent{Op: op, Conn: p.Who, Buf: id}
 	if p.Stamp != nil {
@@ -95,6 +98,7 @@ func (p *LogPool) ev(op string, id int) {
 
 func NewLogPool() *LogPool { return &LogPool{ids: map[*byte]int{}, Out: map[int]string{}} }
 
+//go:norace
 func (p *LogPool) idOf(v interface{}) int {
 	b := websocket.VerifPoolBuf(v)
 	if len(b) == 0 {
@@ -109,10 +113,13 @@ func (p *LogPool) idOf(v interface{}) int {
 	return id
 }
 
+//go:norace
 func (p *LogPool) Get() interface{} {
 	if p.Hook != nil {
 		p.Hook("get")
 	}
+	p.hand.Lock()
+	defer p.hand.Unlock()
 	if len(p.free) == 0 {
 		p.ev("get", 0)
 		return nil
@@ -125,10 +132,13 @@ func (p *LogPool) Get() interface{} {
 	return v
 }
 
+//go:norace
 func (p *LogPool) Put(v interface{}) {
 	if p.Hook != nil {
 		p.Hook("put")
 	}
+	p.hand.Lock()
+	defer p.hand.Unlock()
 	id := p.idOf(v)
 	p.ev("put", id)
 	b := websocket.VerifPoolBuf(v)
